@@ -5,8 +5,8 @@ from mkprops import write
 
 IMP = """From Coq Require Import List Arith Bool NArith.
 From FFSM2 Require Import Model.TaskList Model.BitArray Model.BitStream Model.Plan Model.Ancestors Model.Machine
-  Proofs.BitArrayProofs Proofs.MachineFrame Proofs.MachinePlan Proofs.MachineLife Proofs.GuardProofs Proofs.CycleProofs Proofs.PlanStep
-  Proofs.SerialProofs Proofs.LogProofs Proofs.MachineTop Model.Multi Generated.InitFacts Proofs.ConstructProofs Proofs.LifeMonitor Proofs.ActivationRounds Proofs.IndexSafety Proofs.FeatureProofs.
+  Proofs.BitArrayProofs Proofs.TaskListProofs Proofs.TaskListRun Proofs.PlanProofs Proofs.MachineFrame Proofs.MachinePlan Proofs.MachineLife Proofs.GuardProofs Proofs.CycleProofs Proofs.PlanStep
+  Proofs.SerialProofs Proofs.LogProofs Proofs.MachineTop Model.Multi Generated.InitFacts Proofs.ConstructProofs Proofs.LifeMonitor Proofs.ActivationRounds Proofs.IndexSafety Proofs.FeatureProofs Model.Script Proofs.Contract.
 Import ListNotations."""
 
 VOC = ("Vocabulary: Ready cfg s a = the machine is at a point where requests are processed (or between API calls) with state a < n active, "
@@ -167,6 +167,9 @@ SPECS.update({
    ("C01_after_enter_comes_exit_or_reenter", "accepted_after_enter", "in any accepted trace the next own lifecycle callback of a state after enter(k) is exit(k) or reenter(k)"),
    ("C01_no_two_enters_without_exit", "accepted_enter_enter", ""),
    ("C01_views_show_the_entered_state", "accepted_life_view", ""),
+   ("C01_scripted_callbacks_are_in_the_domain", "table_oracle_wf", "the correspondence check's scripted callbacks satisfy wf_oracle when the extracted test table_okb says so (the model runner evaluates it for every script)"),
+   ("C01_scripted_operations_are_in_the_domain", "in_contractb_spec", "... and an operation the extracted test in_contractb accepts is in_contract (the model runner evaluates first_violation for every script and the check skips a script that is not)"),
+   ("C01_loads_between_instances_are_in_the_domain", "load_from_in_contract", ""),
  ]),
 })
 SPECS["C04"][1].extend([
@@ -202,6 +205,26 @@ SPECS.update({
    ("C19_plans_from_any_idle_state", "plans_run_from_idle", ""),
    ("C19_logging_does_not_interfere", "log_transparent_gen", "for every history and every pair of log modes: forgetting the logger's records, the run with a logger equals the run without"),
    ("C19_log_mode_irrelevant_without_logger", "run_log_mode_irrelevant", "with no logger attached the compile-time log mode is unobservable"),
+ ]),
+})
+
+SPECS.update({
+ "C10": ("C10 - Plan capacity is exact, order-preserving and never leaks. Theorems only. Three layers. (1) TaskListT, the slot allocator with an intrusive free list: invariant FL t vac occ (vac = the vacant slots chained from the head, occ = the occupied slots with their contents); (2) the plan = doubly linked order over those slots (PlanInv d order; tasks_of d order = the plan as a list of tasks), with the C++ iterator that caches the next index; plan_refines_list: over operation lists of any length (append, append with payload, remove through an iterator at position k, clear) the model returns exactly what a bounded list returns; (3) the machine: in every reachable state the plan satisfies the invariant and, when empty, offers the whole capacity again. For every capacity 1..255. ", [
+   ("C10_plan_refines_a_bounded_list", "plan_refines_list", "every history of plan edits, any length: returned values (append succeeded / refused, the tasks an iterating removal visited) and the plan as seen afterwards equal those of the obvious bounded list"),
+   ("C10_invariant_over_histories", "plan_run_inv", ""),
+   ("C10_append", "plan_append_spec", "append succeeds exactly when fewer than capacity tasks are present, adds at the end, leaves everything else alone; otherwise returns false and changes nothing"),
+   ("C10_append_with_payload", "plan_append_with_spec", ""),
+   ("C10_iteration_yields_the_tasks_in_order", "plan_tasks_spec", "the iterator with cached next yields precisely the tasks appended and not yet removed, in append order"),
+   ("C10_first_last", "plan_first_last_spec", ""), ("C10_nonempty", "plan_nonempty_spec", ""),
+   ("C10_remove_anywhere", "plan_remove_spec", "removing any task keeps the others, their contents and their order"),
+   ("C10_remove_while_iterating", "plan_remove_at_spec", "removing through an iterator does not disturb the iteration over the rest: every task is still visited once, in order"),
+   ("C10_clear", "plan_clear_spec", ""), ("C10_data_clear", "pd_clear_spec", ""),
+   ("C10_capacity_restored", "capacity_restored", "no leak: from any state of the free list in which the plan is empty, capacity consecutive appends succeed and the next is refused"),
+   ("C10_every_reachable_machine_state", "reachable_plan_capacity", "... and every state a machine reaches through any in-contract API history (consumption by firing, plan-outcome clearing, exits, load included) is such a state"),
+   ("C10_tasklist_init", "init_FL", ""), ("C10_tasklist_full", "emplace_full", "the slot allocator: emplace on a full list reports INVALID and changes nothing"),
+   ("C10_tasklist_emplace", "emplace_FL", "emplace with room returns a slot that was vacant, stores the task there, keeps every occupied slot"),
+   ("C10_tasklist_remove", "remove_FL", ""), ("C10_tasklist_clear", "clear_FL", ""),
+   ("C10_tasklist_every_history", "tl_run_FL", ""), ("C10_tasklist_no_leak", "emplace_all_spec", ""),
  ]),
 })
 
